@@ -145,9 +145,11 @@ Section Syntax.
   Definition wf_seq (strict inarg : bool) (l : list ast) : bool :=
     forallb (wf strict inarg) l && chain_ok strict l.
 
-  (* what the theorems need to know about the two Unicode oracles: the three
-     ASCII characters that can follow a formatter name are not name characters *)
+  (* what the theorems need to know about the two Unicode oracles: '{' and
+     the three ASCII characters that can follow a formatter name ( '(' ':' '}' )
+     are not name characters *)
   Definition oracle_ok : Prop :=
+    alpha 123 = false /\
     alpha 40 = false /\ alpha 58 = false /\ alpha 125 = false /\
     alnum 40 = false /\ alnum 58 = false /\ alnum 125 = false.
 End Syntax.
